@@ -832,10 +832,16 @@ where
             .cache
             .get(&kh.key)
             .filter(|e| TrioArc::ptr_eq(e.entry_info(), entry.entry_info()))
-            .map(|e| TrioArc::clone(&*e));
+            .map(|e| (Arc::clone(e.key()), TrioArc::clone(&*e)));
         let new_weight = current
             .as_ref()
-            .map_or(new_weight, |e| self.weigh(&kh.key, &e.value));
+            .map_or(new_weight, |(_, e)| self.weigh(&kh.key, &e.value));
+        // Let the deque nodes share the key object the map holds, not the copy that
+        // came with this op (an update op carries its own `Arc<K>`).
+        let kh = match &current {
+            Some((map_key, _)) => KeyHash::new(Arc::clone(map_key), kh.hash),
+            None => kh,
+        };
 
         if entry.is_admitted() {
             // The entry has been already admitted, so treat this as an update.
